@@ -552,9 +552,9 @@ var ruleStatusFlow = &Rule{
 			}
 		}
 		out.Counts["status_functions_with_a_collector"] = nent
-		out.Floors["status_functions_with_a_collector"] = 30
+		out.Floors["status_functions_with_a_collector"] = 10
 		out.Counts["forwarding_calls_with_status_read"] = n
-		out.Floors["forwarding_calls_with_status_read"] = 8
+		out.Floors["forwarding_calls_with_status_read"] = 3
 		return out
 	},
 }
@@ -653,7 +653,7 @@ var ruleCollBlind = &Rule{
 			}
 		}
 		out.Counts["collector_nil_tests"] = n
-		out.Floors["collector_nil_tests"] = 15
+		out.Floors["collector_nil_tests"] = 5
 		return out
 	},
 }
